@@ -169,6 +169,7 @@ impl VxToBe for u128 { type Arr = [u8; 16];
   #[verifier::external_body]
   fn vx_to_be_bytes(self) -> (r: [u8; 16]) ensures r@ == enc_be(self as nat, 16) { self.to_be_bytes() } }
 
+pub assume_specification [<u16 as std::convert::From<bool>>::from] (b: bool) -> (r: u16) ensures r == (if b { 1u16 } else { 0u16 });
 pub assume_specification [u8::from_be] (x: u8) -> (r: u8) ensures r == x;
 pub assume_specification [u8::to_be] (x: u8) -> (r: u8) ensures r == x;
 
